@@ -463,9 +463,19 @@ fn gen_base(tier: &str, seed: u64, out: &mut dyn FnMut(String)) {
     let sh_words = words(&['[', ']', ',', ' ', '1'], if thorough { 7 } else { 5 });
     for w in &sh_words { for ndim in 0..=3 { out(format!("shape {} {}", ndim, enc(w))); } }
     for w in words(&['[', ']', ',', '(', ')', '1', '"'], if thorough { 6 } else { 4 }) {
-        if w.contains(")(") { continue; }   // `array_tuple!` does not terminate on `)(` — see claims note
+        // texts in which `)` stands (directly) before `(` are compared like any other: the model proves the loop makes one
+        // no-progress iteration and then panics (Props/C18 tuple_adjacent_parens) - the real macro must panic too, not hang
         out(format!("rt tuple2 {}", enc(&w))); out(format!("rt tuple2i {}", enc(&w)));
     }
+    // `)` before `(`: every valid tuple text with `)`, `x)`, `) ` or `)_` put in front of its first `(`, plus hand-written ones
+    for s in [vec![1usize], vec![2], vec![2, 2], vec![1, 3], vec![2, 1, 2]] {
+        let n: usize = s.iter().product(); let leaves: Vec<String> = (0..n).map(|k| format!("({}, {})", k, k + 1)).collect();
+        let mut ns = vec![1usize; 2]; ns.extend(s.iter()); let good = format!("{:?}", build_nested(&ns, &leaves));
+        let at = good.find('(').unwrap();
+        for ins in [")", "x)", ") ", ")_", "))", ")(", "()"] { let mut t = good.clone(); t.insert_str(at, ins); out(format!("rt tuple2i {}", enc(&t))); out(format!("rt tuple2 {}", enc(&t))); }
+        let mut t = good.clone(); let last = t.rfind('(').unwrap(); t.insert(last, ')'); out(format!("rt tuple2i {}", enc(&t)));
+    }
+    for t in ["[[[x)(1, 2)]]]", "[[[)(]]]", ")(", "[[)(", "[[[(1, 2))(3, 4)]]]", "[[[(1, 2)], [)(3, 4)]]]"] { out(format!("rt tuple2i {}", enc(t))); out(format!("rt tuple3 {}", enc(t))); }
     for w in words(&['[', ']', ',', '1', ' ', '"'], if thorough { 6 } else { 5 }) { out(format!("rt list {}", enc(&w))); out(format!("rt listi {}", enc(&w))); }
     for w in words(&['[', ']', ',', 'a', '\'', ' '], if thorough { 6 } else { 5 }) { out(format!("rt char {}", enc(&w))); }
     for w in words(&['[', ']', ',', 'a', '"', '\\', 'n'], if thorough { 6 } else { 4 }) { out(format!("rt string {}", enc(&w))); }
@@ -587,11 +597,10 @@ fn gen_r3(tier: &str, seed: u64, out: &mut dyn FnMut(String)) {
         out(seq_line(&tys.iter().map(|ty| disp_line(ty, &s, prec, *alt)).collect::<Vec<_>>()));
     } }
     // ---- stream 6c: a refused text directly followed by a valid one (front ends, shape parser, tuple / list parsers, the Err side of the wrapper)
-    let bads = ["", "[", "]", "[[1]", "[1]]", "[(1]", "[\"1]", ",", "(1", "[1,"];
+    let bads = ["", "[", "]", "[[1]", "[1]]", "[(1]", "[\"1]", ",", "(1", "[1,", "[[[)(1, 2)]]]"];
     for kind in ["tuple2", "tuple2i", "tuple3", "list", "listi", "char", "string"] {
         let leaf_kind = match kind { "tuple2i" => "tuple2", "listi" => "list", k => k };
         for (i, bad) in bads.iter().enumerate() {
-            if kind.starts_with("tuple") && bad.contains(")(") { continue; }
             let wraps = if kind.starts_with("tuple") { 2 } else { 1 };
             let mk = |s: &[usize], rng: &mut Rng| { let n: usize = s.iter().product(); let leaves: Vec<String> = (0..n).map(|k| if kind == "tuple2i" { format!("({}, {})", k, k + 1) } else if kind == "listi" { format!("[{}, {}]", k, k + 2) } else { rt_leaf(leaf_kind, k, rng) }).collect();
                 let mut ns = vec![1; wraps]; ns.extend(s.iter()); format!("rt {kind} {}", enc(&format!("{:?}", build_nested(&ns, &leaves)))) };
